@@ -8,6 +8,7 @@ import SuccinctlyVerif.Proof.Utf8Avx2
 import SuccinctlyVerif.Proof.Utf8BroadwordMain
 import SuccinctlyVerif.Proof.Utf8Prefix
 import SuccinctlyVerif.Proof.Utf8LineCol
+import SuccinctlyVerif.Proof.Utf8RoundTrip
 import SuccinctlyVerif.Proof.Utf8Codec
 namespace SV.Props.C13
 open SV SV.Utf8
@@ -161,5 +162,33 @@ theorem error_offset_partial (b : List Byte) (e : Utf8Error) (h : validateScalar
 
 example : validateScalar [0x0A#8, 0xC0#8, 0x80#8] =
     some { offset := 1, line := 2, column := 1, kind := .overlongEncoding } := by decide
+
+/-- `encode_code_point` rejects exactly the values that are not Unicode scalar values. -/
+theorem encode_none_iff_not_scalar (cp : BitVec 32) :
+    encodeCodePoint cp = none ↔ isScalar cp.toNat = false := by
+  rw [(decode_encode_all cp).1]
+  simp only [isScalar, BitVec.le_def, BitVec.lt_def, gt_iff_lt, BitVec.toNat_ofNat, Bool.or_eq_false_iff,
+    Bool.and_eq_false_iff, decide_eq_false_iff_not]
+  omega
+
+/-- `decode_encode`: for every scalar value `cp` (every `u32` the encoder accepts),
+`decode_code_point(encode_code_point(cp))` returns `(cp, len)`, both on the `len` encoded bytes and on
+the whole zero-padded four-byte buffer. -/
+theorem decode_encode (cp : BitVec 32) (buf : List Byte) (len : Nat)
+    (h : encodeCodePoint cp = some (buf, len)) :
+    decodeCodePoint (buf.take len) = some (cp, len) ∧ decodeCodePoint buf = some (cp, len) :=
+  (decode_encode_all cp).2 buf len h
+
+example : encodeCodePoint 0x20AC#32 = some ([0xE2#8, 0x82#8, 0xAC#8, 0x00#8], 3) := by decide
+
+/-- `encode_decode`: whenever `decode_code_point` succeeds with `(cp, n)`, `encode_code_point(cp)`
+yields exactly the `n` bytes that were decoded (so overlong forms, surrogates and values above
+U+10FFFF never decode, and the decoded value is a scalar value). -/
+theorem encode_decode (bs : List Byte) (cp : BitVec 32) (n : Nat)
+    (h : decodeCodePoint bs = some (cp, n)) :
+    ∃ buf, encodeCodePoint cp = some (buf, n) ∧ buf.take n = bs.take n :=
+  encode_decode_all bs cp n h
+
+example : decodeCodePoint [0xF0#8, 0x9F#8, 0x98#8, 0x80#8, 0x41#8] = some (0x1F600#32, 4) := by decide
 
 end SV.Props.C13
